@@ -259,7 +259,7 @@ pub fn filter_paths(paths: Vec<PathBuf>, e: &FileExtensions) -> (r: Vec<PathBuf>
         /*[C16.total]*/ result is Err ==> *final(tr) == *old(tr),
 //@pre
         let ghost ev_paths = if result is Ok { result->Ok_0.paths@ } else { Seq::<PathBuf>::empty() };
-//@before 0 `if !relevant_files.is_empty()`
+//@before 0 `if `
         proof {
             let f = |p: PathBuf| relevant(p, *extensions);
             if relevant_files@.len() > 0 {
